@@ -6,7 +6,7 @@ import ast
 import re
 
 from ..astutil import (
-    call_name, calls_in, dotted, enclosing_stmt, guard_atoms, lexical_guards, name_stores, subscript_stores,
+    ancestors, call_name, calls_in, dotted, enclosing_stmt, guard_atoms, lexical_guards, name_stores, subscript_stores,
     unparse, walk_local,
 )
 from ..report import Registry, sub
@@ -383,6 +383,325 @@ def r3(ctx):
     ctx.check(colset, f"{f.key}:current-column-set-before-callable",
               f"the callable default is invoked without `self.current_column = {colv}` first (context.current_column would be stale)",
               f"self.current_column = {colv} precedes the call", f.loc)
+
+
+# ---------------------------------------------------------------------- R4 / R5 (added by str-e)
+DEFAULT_STATE_ATTRS = ("default", "onupdate", "server_default", "server_onupdate")
+
+
+def _fam_sites(ctx):
+    """[(function, call, callee name)] for every call of the default-applying family outside the family."""
+    m, fam = _default_family(ctx)
+    sites = []
+    for f in m.functions.values():
+        if f.name in fam or f.is_overload:
+            continue
+        for c in calls_in(f.node, into_nested=True):
+            nm = call_name(c)
+            if nm in fam:
+                sites.append((f, c, nm))
+    sites.sort(key=lambda s: (s[1].lineno, s[1].col_offset))
+    return m, fam, sites
+
+
+def _leaves(test):
+    """Leaves of the and/or/not tree of a condition."""
+    if isinstance(test, ast.BoolOp):
+        out = []
+        for v in test.values:
+            out.extend(_leaves(v))
+        return out
+    if isinstance(test, ast.UnaryOp) and isinstance(test.op, ast.Not):
+        return _leaves(test.operand)
+    return [test]
+
+
+def _is_membership(leaf):
+    return isinstance(leaf, ast.Compare) and len(leaf.ops) == 1 and isinstance(leaf.ops[0], (ast.In, ast.NotIn))
+
+
+def _reads_value_of(leaf, mappings):
+    """text of the first read of a supplied *value* (M[k], M.get(k), M.pop(k)) or of a column's default state
+    inside the leaf, else None."""
+    for n in ast.walk(leaf):
+        if isinstance(n, ast.Subscript) and isinstance(n.value, ast.Name) and n.value.id in mappings:
+            return unparse(n)
+        if isinstance(n, ast.Call) and isinstance(n.func, ast.Attribute) and n.func.attr in ("get", "pop", "setdefault") \
+                and isinstance(n.func.value, ast.Name) and n.func.value.id in mappings:
+            return unparse(n)
+        if isinstance(n, ast.Attribute) and n.attr in DEFAULT_STATE_ATTRS:
+            return unparse(n)
+    return None
+
+
+@R.rule("C13-R4", floor=4, template="T-GUARD (what the supplied/omitted decision may read)",
+        desc="every test that decides between 'use the supplied value' and 'apply the default' for a column (first "
+             "row, later multi-VALUES rows, INSERT..FROM SELECT, multi-table UPDATE) is built from key-membership "
+             "atoms only: it never reads the supplied value (M[k], M.get(k)) nor the column's default state, so a "
+             "supplied None is as 'supplied' as any other value in every sibling")
+def r4(ctx):
+    m, fam, sites = _fam_sites(ctx)
+    pm = m.parents()
+    gates = {}
+    for f, c, nm in sites:
+        for t, pol in lexical_guards(pm, enclosing_stmt(pm, c), stop=f.node):
+            sup = {mp for k, mp in _membership_any(t) if _supplied_mapping(mp, f)}
+            if sup and pol is False:
+                gates.setdefault(id(t), (f, t, sup))
+    for f in m.functions.values():
+        for c in calls_in(f.node, into_nested=True):
+            if call_name(c) == SUPPLIED_BRANCH:
+                for t, pol in lexical_guards(pm, enclosing_stmt(pm, c), stop=f.node):
+                    sup = {mp for k, mp in _membership_any(t) if _supplied_mapping(mp, f)}
+                    if sup and pol is True:
+                        gates.setdefault(id(t), (f, t, sup))
+    items = sorted(gates.values(), key=lambda x: (x[1].lineno, x[1].col_offset))
+    ctx.require(items, "no supplied-vs-default gating test found in sql/crud.py")
+    for key, (f, t, sup) in ordinal_keys(items, lambda x: f"{x[0].key}:supplied-test"):
+        ctx.functions_analysed.add(f.key)
+        bad, unknown = [], []
+        for leaf in _leaves(t):
+            if _is_membership(leaf) and _reads_value_of(leaf, sup) is None:
+                continue
+            rd = _reads_value_of(leaf, sup)
+            if rd is not None:
+                bad.append((unparse(leaf)[:70], rd))
+            else:
+                unknown.append(unparse(leaf)[:70])
+        ctx.require(not unknown or bad, f"{f.key}: conjunct(s) {unknown} of the supplied/omitted test `{unparse(t)[:80]}` "
+                                        f"are neither key membership nor a value/default read (not understood)")
+        ctx.check(not bad, key,
+                  f"the test `{unparse(t)[:110]}` that chooses between the supplied value and the column default reads "
+                  f"{'; '.join(f'`{rd}` (in `{lf}`)' for lf, rd in bad)}: whether a value counts as supplied must depend on key "
+                  f"membership only -- a supplied value (e.g. None) would be replaced by the default, and rows/siblings "
+                  f"that use the plain membership test would disagree",
+                  f"`{unparse(t)[:70]}`: membership atoms only", f"{m.path}:{t.lineno}")
+
+
+def _membership_any(test):
+    """[(key text, mapping name)] for every `K in M` / `K not in M` leaf of a test (any polarity)."""
+    out = []
+    for leaf in _leaves(test):
+        if _is_membership(leaf) and isinstance(leaf.comparators[0], ast.Name):
+            out.append((unparse(leaf.left), leaf.comparators[0].id))
+    return out
+
+
+def _is_full_collection(e):
+    """`<table expr>.c` / `<table expr>.columns`: the complete column collection of a table."""
+    return isinstance(e, ast.Attribute) and e.attr in ("c", "columns")
+
+
+def _flatten_add(e):
+    if isinstance(e, ast.BinOp) and isinstance(e.op, ast.Add):
+        return _flatten_add(e.left) + _flatten_add(e.right)
+    return [e]
+
+
+def _partition_problems(parts, f):
+    """`[T[k] for k in S if ...] + [c for c in T if c.key not in set(S)]`: problems that make the concatenation differ
+    from 'every column of T exactly once' (list of str); None when the shape is not understood."""
+    comps = [p for p in parts if isinstance(p, ast.ListComp) and len(p.generators) == 1]
+    if len(comps) == 1 and len(parts) == 1 and _is_full_collection(comps[0].generators[0].iter):
+        # one comprehension over the whole collection: any filter leaves columns out
+        g0 = comps[0].generators[0]
+        if not (isinstance(g0.target, ast.Name) and isinstance(comps[0].elt, ast.Name) and comps[0].elt.id == g0.target.id):
+            return None
+        return [f"the table's columns are filtered by `{unparse(c)[:60]}` before the scan" for c in g0.ifs]
+    if len(comps) != len(parts) or len(parts) != 2:
+        return None
+    full = [p for p in comps if _is_full_collection(p.generators[0].iter)]
+    keyed = [p for p in comps if not _is_full_collection(p.generators[0].iter)]
+    if len(full) != 1 or len(keyed) != 1:
+        return None
+    rest, named = full[0], keyed[0]
+    rg, ng = rest.generators[0], named.generators[0]
+    if not (isinstance(rg.target, ast.Name) and isinstance(rest.elt, ast.Name) and rest.elt.id == rg.target.id):
+        return None
+    if not (isinstance(ng.target, ast.Name) and isinstance(ng.iter, ast.Name)):
+        return None
+    # the named part picks T[k] for the keys k of S
+    if not (isinstance(named.elt, ast.Subscript) and _is_full_collection(named.elt.value)
+            and isinstance(named.elt.slice, ast.Name) and named.elt.slice.id == ng.target.id):
+        return None
+    problems = []
+    src = ng.iter.id
+    colv = rg.target.id
+    # complement filter: only `c.key not in K` / `c not in K`, K = the keys of S
+    compl = 0
+    for cond in rg.ifs:
+        if not _conj(cond, True):
+            problems.append(f"the remaining-columns filter `{unparse(cond)[:60]}` is a disjunction: a column could be scanned "
+                            f"twice or not at all")
+            continue
+        for leaf, pol in _signed_leaves(cond, True):
+            ok = False
+            if _is_membership(leaf) and isinstance(leaf.comparators[0], ast.Name):
+                neg = isinstance(leaf.ops[0], ast.NotIn) == pol   # effective polarity: "not in"
+                lhs = leaf.left
+                on_col = (isinstance(lhs, ast.Name) and lhs.id == colv) or \
+                    (isinstance(lhs, ast.Attribute) and isinstance(lhs.value, ast.Name) and lhs.value.id == colv and lhs.attr in ("key", "name"))
+                if neg and on_col and _is_keyset_of(leaf.comparators[0].id, src, f):
+                    ok = True
+                    compl += 1
+            if not ok:
+                problems.append(f"the remaining-columns part additionally filters by `{unparse(leaf)[:60]}`: table columns "
+                                f"not named in `{src}` are scanned only when that holds")
+    if compl == 0:
+        problems.append(f"the remaining-columns part does not exclude the columns already taken from `{src}` (scanned twice)")
+    for cond in ng.ifs:
+        for leaf in _leaves(cond):
+            fine = False
+            if isinstance(leaf, ast.Call) and call_name(leaf) == "isinstance" and leaf.args and isinstance(leaf.args[0], ast.Name) \
+                    and leaf.args[0].id == ng.target.id:
+                fine = True
+            if _is_membership(leaf) and isinstance(leaf.ops[0], ast.In) and isinstance(leaf.left, ast.Name) \
+                    and leaf.left.id == ng.target.id and _is_full_collection(leaf.comparators[0]):
+                fine = True
+            if not fine:
+                problems.append(f"the named part filters by `{unparse(leaf)[:60]}`: a column named in `{src}` failing it is "
+                                f"scanned by neither part")
+    return problems
+
+
+def _signed_leaves(test, pol):
+    if isinstance(test, ast.UnaryOp) and isinstance(test.op, ast.Not):
+        return _signed_leaves(test.operand, not pol)
+    if isinstance(test, ast.BoolOp):
+        out = []
+        for v in test.values:
+            out.extend(_signed_leaves(v, pol))
+        return out
+    return [(test, pol)]
+
+
+def _is_keyset_of(name, src, f):
+    """`name` is `src` itself or bound (once) to set(src) / frozenset(src) / {k for k in src}."""
+    if name == src:
+        return True
+    binds = [v for n, v, st in name_stores(f.node) if n == name]
+    if len(binds) != 1 or binds[0] is None:
+        return False
+    v = binds[0]
+    if isinstance(v, ast.Call) and call_name(v) in ("set", "frozenset") and len(v.args) == 1 and isinstance(v.args[0], ast.Name):
+        return v.args[0].id == src
+    if isinstance(v, ast.SetComp) and len(v.generators) == 1 and isinstance(v.generators[0].iter, ast.Name) \
+            and isinstance(v.elt, ast.Name) and isinstance(v.generators[0].target, ast.Name) \
+            and v.elt.id == v.generators[0].target.id and not v.generators[0].ifs:
+        return v.generators[0].iter.id == src
+    return False
+
+
+# column scans that are deliberately not "every column of the table"
+PARTIAL_SCAN = {
+    "sql/crud.py::_scan_insert_from_select_cols":
+        "INSERT..FROM SELECT names its target columns; other columns take part only when they carry a Python-side default",
+}
+
+
+@R.rule("C13-R5", floor=9, template="T-SIBLING (coverage of the column iteration)",
+        desc="every loop that applies defaults iterates over the complete column collection of the table in every "
+             "mode: directly (`<table>.c` / `.columns`), as the caller's unfiltered list, or as `named columns + all "
+             "remaining columns` where the remainder is filtered by nothing but 'not already named'; and no default "
+             "application is additionally guarded by a positive `key in <supplied values>` test")
+def r5(ctx):
+    m, fam, sites = _fam_sites(ctx)
+    pm = m.parents()
+    loops = {}
+    for f, c, nm in sites:
+        loop = None
+        for a in _ancestors(pm, c, f.node):
+            if isinstance(a, (ast.For, ast.AsyncFor)):
+                loop = a
+                break
+        if loop is not None:
+            loops.setdefault(id(loop), (f, loop))
+    ctx.require(loops, "no column loop around a default-applying call found")
+    insts = []
+    for f, loop in sorted(loops.values(), key=lambda x: x[1].lineno):
+        ctx.functions_analysed.add(f.key)
+        it = loop.iter
+        if _is_full_collection(it):
+            insts.append((f, loop, None, f"iterates `{unparse(it)}`"))
+            continue
+        ctx.require(isinstance(it, ast.Name), f"{f.key}: column loop iterates `{unparse(it)[:60]}` (not understood)")
+        binds = [(v, st) for n, v, st in name_stores(f.node) if n == it.id]
+        if f.key in PARTIAL_SCAN:
+            ctx.ok(f"{f.key}:scanned-columns", f"partial by design: {PARTIAL_SCAN[f.key]}", nontrivial=False)
+            continue
+        if it.id in f.params and not binds:
+            insts.append((f, loop, None, f"iterates the caller's list `{it.id}` unfiltered"))
+            continue
+        ctx.require(binds, f"{f.key}: `{it.id}` is never bound")
+        for v, st in binds:
+            insts.append((f, loop, (v, st), None))
+    def shape(x):
+        f, loop, bind, detail = x
+        if bind is None or bind[0] is None:
+            return "direct"
+        v = bind[0]
+        return "whole-collection" if _is_full_collection(v) else "caller-list" if isinstance(v, ast.Name) else "composed"
+
+    for key, (f, loop, bind, detail) in ordinal_keys(insts, lambda x: f"{x[0].key}:scanned-columns[{shape(x)}]"):
+        if bind is None:
+            ctx.ok(key, detail)
+            continue
+        v, st = bind
+        ctx.require(v is not None, f"{f.key}: `{unparse(loop.iter)}` bound by `{type(st).__name__}` (not understood)")
+        if _is_full_collection(v):
+            ctx.ok(key, f"`{unparse(v)}`")
+            continue
+        if isinstance(v, ast.Name) and v.id in f.params:
+            ctx.ok(key, f"alias of the caller's list `{v.id}`")
+            continue
+        probs = _partition_problems(_flatten_add(v), f)
+        ctx.require(probs is not None, f"{f.key}: the scanned column list `{unparse(v)[:90]}` is neither the table's column "
+                                       f"collection nor `named + remaining` (not understood)")
+        ctx.check(not probs, key,
+                  f"the columns scanned by {f.qualname} in this mode are not 'every table column exactly once': "
+                  f"{'; '.join(probs)} -- default / onupdate / server-side postfetch handling is skipped for the columns left out",
+                  "named columns + every remaining column", f"{m.path}:{v.lineno}")
+    # no default application narrowed by a positive membership in the supplied values
+    by_fn = {}
+    for f, c, nm in sites:
+        by_fn.setdefault(f.key, (f, []))[1].append((c, nm))
+    for fkey, (f, cs) in sorted(by_fn.items()):
+        g = ctx.cfg(f)
+        bad = []
+        for c, nm in cs:
+            st = enclosing_stmt(pm, c)
+            guards = list(lexical_guards(pm, st, stop=f.node))
+            for nid in g.nodes_for(st):
+                guards.extend(g.edge_guards(nid))
+            for t, pol in guards:
+                for leaf, lp in _signed_leaves(t, pol) if _conj(t, pol) else []:
+                    if _is_membership(leaf) and isinstance(leaf.comparators[0], ast.Name) \
+                            and _supplied_mapping(leaf.comparators[0].id, f):
+                        positive = isinstance(leaf.ops[0], ast.In) == lp
+                        if positive:
+                            bad.append(f"`{nm}(...)` at line {c.lineno} runs only when `{unparse(leaf)[:60]}`")
+        ctx.check(not bad, f"{fkey}:default-path-not-narrowed-by-supplied-keys",
+                  f"{'; '.join(sorted(set(bad)))}: a default is applied only to columns that have a supplied value "
+                  f"(contradicts the 'no value supplied' side it lives on)",
+                  f"{len(cs)} default application(s), none under a positive `key in <supplied>`", f.loc)
+
+
+def _conj(t, pol):
+    """Is (t, pol) decomposable into conjunctive signed leaves?  (`a and b` True, `a or b` False, leaf)."""
+    while isinstance(t, ast.UnaryOp) and isinstance(t.op, ast.Not):
+        t, pol = t.operand, not pol
+    if isinstance(t, ast.BoolOp):
+        if isinstance(t.op, ast.And) and pol or isinstance(t.op, ast.Or) and not pol:
+            return all(_conj(v, pol) for v in t.values)
+        return False
+    return True
+
+
+def _ancestors(pm, node, stop):
+    for a in ancestors(pm, node):
+        if a is stop:
+            return
+        yield a
 
 
 # ---------------------------------------------------------------------- self-test battery
